@@ -16,13 +16,14 @@ import itertools
 import os
 from types import SimpleNamespace
 
-from lib import core, sysrun
+from lib import core, sysrun, pipeline
 from lib.coqgen import coq_str, coq_list
 
 ID = 'C06'
-COQ_CONE = ['Properties/C06.v']
+COQ_CONE = ['Properties/C06.v', 'Properties/Pipeline.v']
 EXTRACT = 'Extract/C06Extract.v'
 DRIVER = 'ocaml/C06_driver.ml'
+EXTRA_BINARIES = [pipeline.PIPELINE_BINARY]
 ASSUMPTIONS = [
     'build statuses are drawn from the five documented values; any other string is a KeyError in code and model',
     'system-level clause (statuses are read on the tips that get queued/merged): monitored on seeded system histories (mock host + real git), not proved',
@@ -239,12 +240,56 @@ def run(ctx, cases=None):
     ctx.rule += ('; plus %d seeded system histories (random-walk and life-cycle families, build reports on current '
                  'and superseded tips, all five statuses): every evaluation that ends Queued / SuccessMessage is '
                  'checked against the build table of the integration tips it started from' % n)
-    sysrun.run(ctx, [ctx.seed * 100000 + 500 + i for i in range(n)], 16, ['mon_c06'], do_corr=False)
+    ctx.rule += ('; in the same histories the control skeleton of every handler is compared with Model/Pipeline.v '
+                 '(the build gate is the last gate before the decision: C06_gate_is_last) and every real call of '
+                 'check_build_status inside a pull-request evaluation is replayed on the extracted gate with the '
+                 'statuses of the very tips it read')
+    res = sysrun.run(ctx, [ctx.seed * 100000 + 500 + i for i in range(n)], 16, ['mon_c06'], do_corr='pipeline',
+                     model_exe=_pipeline_exe(ctx))
+    system_gate(ctx, res)
+
+
+def _pipeline_exe(ctx):
+    m = getattr(ctx, 'extra_models', {}).get('Pipeline')
+    return m.exe if m else None
+
+
+def system_gate(ctx, results):
+    """Every real check_build_status call recorded inside _handle_pull_request: the statuses of the tips as the
+    host answered them just before the call, the bypass sources of the real job -> extracted gate and spec."""
+    recs = [(r, g) for r in results for g in r.get('gates', []) if g['stage'] == 'check_build_status']
+    reqs, keep = [], []
+    for r, g in recs:
+        inp = g['input']
+        if 'capture_error' in inp or g['ans'] is None:
+            ctx.count('system_gate:capture_error')
+            continue
+        vec = [t['status'] if t['status'] is not None else 'NOTSTARTED' for t in inp['tips']]
+        reqs.append('gate %d 0 %d %d %s' % (inp['bypass_settings'], inp['bypass_author'], inp['key'] == '',
+                                            ' '.join(core_hex(v) for v in vec)))
+        keep.append((r, g, vec))
+    if not reqs:
+        return
+    for (r, g, vec), ans in zip(keep, ctx.model.batch(reqs)):
+        m_out, s_verdict = ans.split(' ')
+        i_out = 'Pass' if g['ans'] == 'K' else 'Raise:' + g['ans'].split(':', 1)[1]
+        ctx.evaluations += 1
+        ctx.count('system_gate:' + i_out)
+        inp = {'seed': r['seed'], 'history': r.get('history'), 'event': g['event'], 'job_index': g['job_index'],
+               'gate_input': g['input']}
+        if i_out != m_out:
+            ctx.mismatch(inp, i_out, m_out, 'check_build_status (real job inside _handle_pull_request)')
+        if vec and all(v in STATUSES for v in vec):
+            got = impl_verdict(i_out)
+            if got != s_verdict:
+                ctx.violation(inp, s_verdict, got, 'build gate verdict on a real evaluation differs from the specification')
 
 
 def replay(ctx, data):
     inp = data['input']
     if 'history' in inp:
-        sysrun.run(ctx, [0], 0, ['mon_c06'], do_corr=False, replay_history=inp['history'])
+        res = sysrun.run(ctx, [0], 0, ['mon_c06'], do_corr='pipeline', replay_history=inp['history'],
+                         model_exe=_pipeline_exe(ctx))
+        system_gate(ctx, res)
         return
     run(ctx, [(inp['statuses'], inp['bypass'], inp['build_key'])])
